@@ -168,6 +168,23 @@ int main(void)
 			printf("%d %d %llu %zu %zu %zu %zu\n", (int)r1, (int)r2, (unsigned long long)est2, live_at_reinit, peak2, live_bytes, bad_free); fflush(stdout);
 			continue;
 		}
+		if (!strncmp(line, "mlset ", 6)) {
+			// mlset <threads> <hard> <hex>: threaded decoder created with generous limits, then the hard limit is lowered
+			// with lzma_memlimit_set() before any input: the lower limit holds for everything the decoder allocates afterwards
+			unsigned th; unsigned long long hard; int o2 = 0;
+			if (sscanf(line, "mlset %u %llu %n", &th, &hard, &o2) < 2) { printf("ERR\n"); fflush(stdout); continue; }
+			size_t n = 0; for (char *h = line + o2; h[0] && h[1] && h[0] != '\n'; h += 2) in[n++] = (uint8_t)(hexv(h[0]) << 4 | hexv(h[1]));
+			nlive = 0; live_bytes = peak_bytes = n_allocs = bad_free = 0; fail_k = 0; max_excess = 0; alarm(60);
+			lzma_stream s = LZMA_STREAM_INIT; s.allocator = &al;
+			mtd = (lzma_mt){ .flags = LZMA_CONCATENATED, .threads = th, .timeout = 0, .memlimit_threading = 1ULL << 30, .memlimit_stop = 1ULL << 30 };
+			lzma_ret r0 = lzma_stream_decoder_mt(&s, &mtd), rs = LZMA_PROG_ERROR, fr = r0;
+			uint64_t m = 0, tout = 0; unsigned e = 0; uint32_t crc = 0;
+			if (r0 == LZMA_OK) { rs = lzma_memlimit_set(&s, hard); fr = run_code(&s, 1, in, n, &m, &e, &crc, &tout); }
+			size_t pk = peak_bytes;
+			lzma_end(&s); alarm(0);
+			printf("%d %d %zu %u %08x %zu %zu\n", (int)rs, (int)fr, pk, e, crc, live_bytes, bad_free); fflush(stdout);
+			continue;
+		}
 		if (!strncmp(line, "reopt ", 6)) {
 			// reopt <kind> <presetA> <dictA> <presetB> <dictB> <hex>: an encoder initialised with options A, used for a while,
 			// re-initialised on the same handle with options B (dict 0 = the preset's own); what is live during the second use
